@@ -316,7 +316,7 @@ def build_cpp(name, src, defines=(), san=True, extra=(), opt=None, std_inc=True,
         keyf = exe + ".key"
         if os.path.exists(exe) and os.path.exists(keyf) and open(keyf).read() == key:
             return exe, "cached"
-        rc, out, err = run([CXX] + flags + ["-I" + INC, "-I" + os.path.join(ROOT, "cpp"), srcp, "-o", exe], timeout=900)
+        rc, out, err = run([CXX] + flags + ["-I" + INC, "-I" + os.path.join(ROOT, "cpp"), srcp, "-o", exe], timeout=3600)     # generous: a loaded machine must not turn a slow compile into a verdict
         if rc != 0:
             return None, err[-6000:]
         open(keyf, "w").write(key)
